@@ -182,32 +182,32 @@ def cases(ctx):
                 yield "txt-exh", [7, enc(t)]
     ctx.notes["exhaustive_scopes"] = ("all 256 octets through _escapify and back; all texts of length <= %d over %r through "
                                       "Tokenizer.get (and, up to length 3, through TXT from_text)" % (ctx.n(3, 4), alpha))
-    for _ in range(ctx.n(80, 4000)):
+    for _ in range(ctx.n(80, 2500)):
         b = gen_bytes(rng)
         yield "escapify", [1, b]
         t = dns.rdata._escapify(b)
         yield "unescape-bytes", [4, enc(t)]
         yield "unescape", [3, enc(t), 1]
-    for _ in range(ctx.n(180, 15000)):
+    for _ in range(ctx.n(180, 8000)):
         t = gen_text(rng)
         yield "tokenize", [2, enc(t), int(rng.random() < 0.2), int(rng.random() < 0.2)]
         yield "txt-from-text", [7, enc(t)]
-    for _ in range(ctx.n(120, 8000)):
+    for _ in range(ctx.n(120, 4000)):
         a = gen_atom(rng) + (gen_atom(rng) if rng.random() < 0.5 else "")
         yield "unescape", [3, enc(a), int(rng.random() < 0.9)]
         yield "unescape-bytes", [4, enc(a)]
         yield "int", [8, enc(a), rng.choice([10, 10, 8])]
         yield "ttl", [9, enc(a)]
-    for _ in range(ctx.n(180, 10000)):
+    for _ in range(ctx.n(180, 6000)):
         t = gen_text(rng)
         ops = [rng.choice([0, 0, 1, 2, 3, 4, 5, 6, 7, 8, 8, 9, 10, 11, 12, 13, 14, 16, 17, 18, 19, 20, 21, 21, 22]) for _ in range(rng.randint(1, 6))]
         yield "script", [5, enc(t), ops]
-    for _ in range(ctx.n(80, 3000)):
+    for _ in range(ctx.n(80, 2000)):
         ss = [gen_bytes(rng, 300 if rng.random() < 0.1 else 30) for _ in range(rng.randint(1, 4))]
         ss = [s[:255] for s in ss]
         yield "txt-to-text", [6, ss]
         yield "txt-from-text", [7, enc(c05lib.txt_text(ss))]
-    for _ in range(ctx.n(50, 2000)):
+    for _ in range(ctx.n(50, 1200)):
         # TXT in RFC 3597 generic syntax: valid wire, truncated / over-long strings, empty rdata
         ss = [gen_bytes(rng, 12) for _ in range(rng.randint(0, 3))]
         w = b"".join(bytes([len(x)]) + x for x in ss)
@@ -224,7 +224,7 @@ def cases(ctx):
         yield "utf8-decode", [12, b]
         yield "utf8-decode", [12, b"a" + b + b"z"]
         yield "txt-style", [13, [b, b"ok"], 1]
-    for _ in range(ctx.n(40, 3000)):
+    for _ in range(ctx.n(40, 2000)):
         yield "escapify-unicode", [11, enc(gen_utext(rng))]
         yield "utf8-decode", [12, gen_ubytes(rng)]
         ss = [gen_ubytes(rng) if rng.random() < 0.7 else gen_bytes(rng, 20) for _ in range(rng.randint(1, 3))]
@@ -234,7 +234,7 @@ def cases(ctx):
         yield "print", [10, 8, v]
     for _ in range(ctx.n(50, 1000)):
         yield "print", [10, rng.choice([8, 10]), rng.randrange(2 ** rng.choice([4, 8, 16, 32, 48, 64]))]
-    for _ in range(ctx.n(60, 5000)):
+    for _ in range(ctx.n(60, 2500)):
         d = gen_bytes(rng, 70)
         chunk = rng.choice([0, 1, 2, 3, 4, 5, 7, 8, 32, 64, 128])
         sep = rng.choice(SEPS)
@@ -249,7 +249,7 @@ def cases(ctx):
         yield "b64decode", [23, b]
         yield "b64decode", [23, mutate_ascii(rng, b)]
         yield "truncate-bitmap", [24, rng.choice([d, d + b"\0\0", b"\0" * rng.randint(0, 3), d[:3] + b"\0"])]
-    for _ in range(ctx.n(60, 5000)):
+    for _ in range(ctx.n(60, 2500)):
         d = gen_bytes(rng, 20)
         t = c05lib.generic_text(d, rng.choice([0, 2, 4, 128]), rng.choice(SEPS))
         yield "generic-from-text", [31, enc(mutate_text(rng, t))]
@@ -267,6 +267,9 @@ def cases(ctx):
 # field kinds: d8 d16 d32 ttl q (character-string) n (name) hex b64 txt ; attribute names in constructor order
 SCHEMA = {
     1: ("a4", ["address"]), 28: ("a6", ["address"]), 105: ("d16 a4", ["preference", "locator32"]),
+    51: ("d8 d8 d16 hextok", ["algorithm", "flags", "iterations", "salt"]),
+    48: ("d16 d8 alg b64", ["flags", "protocol", "algorithm", "key"]), 60: ("d16 d8 alg b64", ["flags", "protocol", "algorithm", "key"]),
+    257: ("d8 tag q", ["flags", "tag", "value"]),
     2: ("n", ["target"]), 5: ("n", ["target"]), 12: ("n", ["target"]), 39: ("n", ["target"]), 23: ("n", ["target"]),
     15: ("d16 n", ["preference", "exchange"]), 18: ("d16 n", ["preference", "exchange"]),
     21: ("d16 n", ["preference", "exchange"]), 36: ("d16 n", ["preference", "exchange"]),
@@ -304,6 +307,12 @@ def gen_field(rng, kind):
                 return ls
     if kind in ("hex", "b64"):
         return gen_bytes(rng, 80) or b"\0"
+    if kind == "hextok":
+        return gen_bytes(rng, 40)
+    if kind == "alg":
+        return rng.choice([0, 1, 5, 8, 13, 15, 16, 17, 252, 253, 254, 255, rng.randrange(256)])
+    if kind == "tag":
+        return bytes(rng.choice(b"issuewildodef0129AZaz") for _ in range(rng.randint(1, 12)))
     if kind == "a4":
         return bytes(rng.choice([0, 1, 9, 10, 99, 100, 199, 200, 255, rng.randrange(256)]) for _ in range(4))
     if kind == "a6":
@@ -349,7 +358,7 @@ def style_obj(sty):
 def schema_cases(ctx):
     rng = ctx.rng
     types = sorted(SCHEMA)
-    for _ in range(ctx.n(160, 12000)):
+    for _ in range(ctx.n(160, 7000)):
         rdtype = rng.choice(types)
         kinds = SCHEMA[rdtype][0].split()
         vals = [gen_field(rng, k) for k in kinds]
@@ -402,7 +411,7 @@ def addr_cases(ctx):
         yield "ipv4-ntoa", [50, bytes([o, (o * 7) % 256, 255 - o, o])]
         if not ctx.quick:
             yield "ipv4-aton", [51, enc("%d.0.%d.1" % (o, o))]
-    for _ in range(ctx.n(30, 6000)):
+    for _ in range(ctx.n(30, 3000)):
         a4 = bytes(rng.choice([0, 1, 9, 10, 99, 100, 199, 200, 255, rng.randrange(256)]) for _ in range(4))
         yield "ipv4-ntoa", [50, a4 if rng.random() < 0.95 else a4[:3]]
         t4 = dns.ipv4.inet_ntoa(a4)
@@ -441,7 +450,7 @@ def windows_of_types(types):
 
 def bitmap_cases(ctx):
     rng = ctx.rng
-    for _ in range(ctx.n(60, 4000)):
+    for _ in range(ctx.n(60, 2000)):
         types = sorted(c05lib.gen_types(rng))
         ws = windows_of_types(types)
         yield "bitmap-types", [54, ws]
@@ -764,3 +773,82 @@ def oracle(ctx, kind, case, out):
         except Exception as e:  # noqa
             fail("generic text does not parse: " + repr(e), sig="generic")
     return F
+
+
+# ------------------------------------------------------------------ widened search
+
+
+def widen(ctx, disagreements):
+    """Model and implementation disagree (or a proof broke) but the oracle found no failing input among the
+    generated cases: look harder around the disagreeing cases - turn each into whole records and run the full
+    record-level property (all styles / modes) on them, then a larger random sweep of the record generators."""
+    found = []
+    seen = set()
+
+    def check_wire(rdclass, rdtype, wire, why):
+        key = (rdclass, rdtype, bytes(wire))
+        if key in seen:
+            return
+        seen.add(key)
+        for oc in (0, 1):
+            case = [100, rdclass, rdtype, bytes(wire), oc]
+            out = c05lib.run_record_case(case)
+            for f in c05lib.record_oracle(ctx, "rd-widened", case, out) or []:
+                f["case"] = case
+                f["case_kind"] = "rd-widened"
+                f["why"] = why
+                found.append(f)
+
+    IN = int(dns.rdataclass.IN)
+    for d in disagreements[:200]:
+        case = d["case"]
+        op = case[0]
+        try:
+            if op == 40:
+                rd = build_rdata(case[1], case[2])
+                check_wire(IN, case[1], rd.to_wire(), "schema to_text disagreement")
+            elif op == 41:
+                org, rel, relto = case[3]
+                rd = dns.rdata.from_text(IN, case[1], dec(case[2]), origin=mkname(org), relativize=bool(rel), relativize_to=mkname(relto))
+                check_wire(IN, case[1], rd.to_wire(origin=dns.name.root), "schema from_text disagreement")
+            elif op in (50, 51):
+                a = case[1] if op == 50 else dns.ipv4.inet_aton(dec(case[1]))
+                check_wire(IN, int(dns.rdatatype.A), a, "ipv4 text disagreement")
+            elif op in (52, 53):
+                a = case[1] if op == 52 else dns.ipv6.inet_aton(dec(case[1]))
+                check_wire(IN, int(dns.rdatatype.AAAA), a, "ipv6 text disagreement")
+            elif op in (54, 55):
+                types = impl([54, case[1]]) if op == 54 else case[1]
+                bm = c05lib.bitmap_wire({t for t in types if t})
+                check_wire(IN, int(dns.rdatatype.NSEC), b"\x01x\x00" + bm, "bitmap disagreement")
+                check_wire(IN, int(dns.rdatatype.CSYNC), b"\x00\x00\x00\x01\x00\x00" + bm, "bitmap disagreement")
+            elif op in (1, 4, 6, 7, 11, 13):
+                ss = case[1] if op in (6, 13) else [case[1] if isinstance(case[1], bytes) else dec(case[1]).encode("utf-8", "replace")]
+                ss = [bytes(x)[:255] for x in ss] or [b""]
+                check_wire(IN, int(dns.rdatatype.TXT), b"".join(bytes([len(x)]) + x for x in ss), "escape disagreement")
+            elif op in (20, 21, 22, 23, 30, 31):
+                d0 = case[1] if isinstance(case[1], bytes) else b""
+                check_wire(IN, c05lib.UNKNOWN_TYPE, d0, "hex/base64/generic disagreement")
+                check_wire(IN, int(dns.rdatatype.DHCID), d0 or b"\x00", "hex/base64/generic disagreement")
+        except Exception:  # noqa
+            continue
+    if not found:
+        # larger sweep of the record generators (thorough sizes even in the quick tier)
+        import lib as _lib
+        wide = _lib.Ctx(ctx.prop + "w", "thorough", ctx.seed + 17)
+        try:
+            n = 0
+            for kind, case in c05lib.record_cases(wide):
+                n += 1
+                if n > 60000:
+                    break
+                out = c05lib.run_record_case(_lib.normalize(case))
+                for f in c05lib.record_oracle(wide, kind, case, out) or []:
+                    f["case"] = case
+                    f["case_kind"] = kind
+                    found.append(f)
+                if len(found) > 50:
+                    break
+        finally:
+            wide.cleanup()
+    return found
